@@ -23,9 +23,12 @@ def fresh_root(node, memo=None):
     return r
 
 
-def child_of(t, view, key):
+def child_of(t, view, key, via_slice=False):
     k = kind(t)
     if k in ('vec', 'list'):
+        if via_slice:
+            # the child is taken out of a slice of (up to) two elements
+            return t[1], view[key:min(key + 2, len(view))][0]
         return t[1], view[key]
     if k == 'cont':
         return t[1:][key], getattr(view, 'f%d' % key)
@@ -68,9 +71,9 @@ def run_store(t, v, ops):
             E(lambda: vv.hash_tree_root())
         try:
             o = op[0]
-            if o == 'child':
+            if o in ('child', 'childs'):
                 pt, pv = views[int(op[1])]
-                ct, cv = child_of(pt, pv, int(op[2]))
+                ct, cv = child_of(pt, pv, int(op[2]), via_slice=(o == 'childs'))
                 if isinstance(ct, str) or kind(ct) in ('Bv', 'Bl') or cv is None:
                     raise ValueError("not a mutable child view")
                 parent[len(views)] = int(op[1])
